@@ -169,7 +169,8 @@ def _build(rows_spec, case):
     # an autosome row always leads, so naming detection sees the chosen style
     from vk import gen
 
-    gen.relabel(df, gen.spec_for(case))
+    dup = gen.pick(case, "dup", 8) == 0 and "row_labels" not in case and not case.get("filter_cn")
+    gen.relabel(df, "perchrom" if dup else gen.spec_for(case))  # repeated labels: accepted by do_call without filters
     return CopyNumArray(df, {"sample_id": "s"}), [r[7] for r in recs], idx
 
 
